@@ -93,7 +93,7 @@ def _alloc_sites(t):
 
     def rec(x):
         if isinstance(x, tuple):
-            if len(x) > 3 and x[0] == 'call' and x[1].startswith(('std::vec::Vec', 'alloc::vec')) and x[1].rsplit('::', 1)[-1] in ('new', 'with_capacity', 'from_elem', 'into_vec'):
+            if len(x) > 3 and x[0] == 'call' and x[1].startswith(('std::vec::Vec', 'alloc::vec', 'std::collections::VecDeque', 'alloc::collections::vec_deque')) and x[1].rsplit('::', 1)[-1] in ('new', 'with_capacity', 'from_elem', 'into_vec'):
                 out.add((x[1], x[3]))
             for y in x:
                 rec(y)
